@@ -60,3 +60,19 @@ Print Assumptions C08_luM_size.
 Print Assumptions C08_luM_spec.
 Print Assumptions C08_qrM_size.
 Print Assumptions C08_qrM_spec.
+
+(* ---- the executable list-matrix instances (what vm_compute runs) refine the 'M[K]_n instances the theorems above are about *)
+From AlgoV Require Import MatrixSpec DetSpec.
+Theorem C08_luU_refines (K : fieldType) (n : nat) (wT : mx K) (A : seq (mx K)) (L0 U0 L0inv U0inv : mx K) :
+  [seq mo2 n p | p <- luU n wT A L0 U0 L0inv U0inv]
+  = luM (mx_of n n wT) [seq mx_of n n a | a <- A] (mx_of n n L0) (mx_of n n U0) (mx_of n n L0inv) (mx_of n n U0inv).
+Proof. exact: luU_refines. Qed.
+Print Assumptions C08_luU_refines.
+Theorem C08_cholU_refines (K : fieldType) (n : nat) (A : seq (mx K)) (L0 L0inv : mx K) :
+  [seq mx_of n n a | a <- cholU n A L0 L0inv] = cholM [seq mx_of n n a | a <- A] (mx_of n n L0) (mx_of n n L0inv).
+Proof. exact: cholU_refines. Qed.
+Print Assumptions C08_cholU_refines.
+Theorem C08_qrU_refines (K : fieldType) (n : nat) (A : seq (mx K)) (Q0 R0 Rinv : mx K) :
+  [seq mo2 n p | p <- qrU n A Q0 R0 Rinv] = qrM [seq mx_of n n a | a <- A] (mx_of n n Q0) (mx_of n n R0) (mx_of n n Rinv).
+Proof. exact: qrU_refines. Qed.
+Print Assumptions C08_qrU_refines.
